@@ -24,6 +24,9 @@ def _clauses(xs, default_props):
             if isinstance(props, str):
                 props = props.split()
             out.append(Clause(lab, text, props, x[3] if len(x) > 3 else None))
+    for c in out:
+        if "NodeInit" in c.text:
+            c.props = set(c.props) | {"NI"}
     return out
 
 
@@ -47,6 +50,7 @@ class Contract:
         self.ghost_after = list(kw.get("ghost_after", []))
         self.note = kw.get("note", "")
         self.env = dict(kw.get("env", {}))
+        self.N_light = kw.get("N_light", False)          # units for N other than the first only keep node-constructor obligations
         self.rng = kw.get("rng", True)                   # False: any numpy random call inside is an obligation failure              # extra class variables, e.g. {"$P": "BinaryPartition"}
 
 
@@ -75,6 +79,8 @@ class Registry:
         self.axioms = []      # callables(unit) -> list of z3 facts
         self.assumptions = {}  # property -> list[str]
         self.trusted = {}
+        self.ghost_fields = {}  # name -> type: ghost maps from references, written only by `ghost_after` clauses
+        self.syntactic = {}
 
     def fn(self, qname, **kw):
         c = Contract(qname, **kw)
